@@ -160,6 +160,21 @@ def run(ctx):
             b = [(x + o) % 2 ** 64 for x, o in zip(base_, offs + [0] * len(base_))]
             pairs.append((list(base_), b)); pairs.append((b, list(base_)))
             sorts.append(b)
+    # high multiplicities over a tiny alphabet: K copies of one value against one copy of its successor (counters packed into a
+    # machine word overflow into their neighbour at K = 16 or 256), the lengths kept equal
+    for K in ((16, 17, 32) if ctx.quick else (15, 16, 17, 31, 32, 33, 64, 256)):
+        for v, y in ((0, 2), (1, 3), (2, 0)):
+            a = [v] * K + [y + 1]
+            b = [v + 1] + [y] * K
+            pairs.append((a, b)); pairs.append((b, a)); pairs.append((a, a[::-1]))
+            sorts.append(a[::-1] + [v])
+    for _ in range(4 if ctx.quick else 40):
+        n = rnd.randrange(17, 40)
+        a = [rnd.randrange(0, 4) for _ in range(n)]
+        b = a[:]; rnd.shuffle(b)
+        if rnd.random() < 0.6:
+            k = rnd.randrange(n); b[k] = (b[k] + 1) % 4
+        pairs.append((a, b))
     for _ in range(nlong):
         n = rnd.randrange(5, 24)
         a = [rnd.choice([rnd.randrange(0, 6), rnd.getrandbits(64), 2 ** 64 - 1, rnd.randrange(0, 1000)]) for _ in range(n)]
